@@ -375,7 +375,7 @@ def rule_constructors(ck):
             base_max[k] = max(base_max.get(k, 0), v)
     found = 0
     for cname in CONSTRUCTORS:
-        b = ck.body(MOVE + "::" + cname, "L6")
+        b = _ctor_body(ck, cname)
         found += 1
         paths = decision_table(prog, b)
         worst = {}
@@ -564,6 +564,18 @@ PARAM_SLOTS = {
 }
 
 
+def _ctor_body(ck, cname):
+    """A constructor's body with calls to OTHER derived constructors spliced in (by_capture_promoting written as by_capturing(..) plus
+    set_promotion): the rules then see the one by_moving call and all setter calls of the chain."""
+    import inline
+    from facts import Body
+    prog = ck.prog
+    b = ck.body(MOVE + "::" + cname, "L6")
+    derived = {MOVE + "::" + c for c in CONSTRUCTORS if c not in ("by_moving", cname)}
+    j, names = inline.inline_body(prog, prog.raw_body(MOVE + "::" + cname), depth=3, decide=lambda n: n in derived)
+    return Body(j, b.unit) if j is not None else b
+
+
 def rule_accessor_wiring(ck):
     prog = ck.prog
     pfx = "<u32 as " + TRAIT + ">::"
@@ -587,7 +599,7 @@ def rule_accessor_wiring(ck):
     # by_capturing / by_promoting / by_capture_promoting forward their own parameters
     for cname, wiring in (("by_capturing", {"set_capture": 4}), ("by_promoting", {"set_promotion": 4}),
                           ("by_capture_promoting", {"set_capture": 4, "set_promotion": 5})):
-        b = ck.body(MOVE + "::" + cname, "L11")
+        b = _ctor_body(ck, cname)
         got = {}
         for p in decision_table(prog, b):
             for e in p.calls():
